@@ -43,6 +43,8 @@ def enum_alts(t):
 
 def field(v, n):
     op = v.op
+    if op == "oneof":
+        return mk("oneof", *[field(x, n) for x in v.args])
     if op == "agg":
         a = v.args
         if 1 + n < len(a):
@@ -105,8 +107,8 @@ def deref_value(eng, state, p):
         if inc and all(x.op in ("ref", "refv", "refo") for x in inc.values()):
             vals = {pred: deref_value(eng, state, x) for pred, x in inc.items()}
             return eng.join_values(("deref",) + p.args[0], vals)
-    if op == "agg" and p.args[0] in ("box",):
-        return p.args[1]
+    if op == "oneof":
+        return mk("oneof", *[deref_value(eng, state, x) for x in p.args])
     return mk("deref", p)
 
 
@@ -766,13 +768,16 @@ class Engine:
         if s in frame.subst:
             return frame.subst[s]
         if frame.subst:
+            used = []
+
             def rep(m):
                 w = m.group(0)
                 if w in frame.subst:
+                    used.append(frame.subst[w][1])
                     return frame.subst[w][0]
                 return w
             s2 = re.sub(r"\b[A-Z][A-Za-z0-9_]*\b", rep, s)
-            return (s2, crate)
+            return (s2, used[0] if used else crate)
         return (s, crate)
 
     def find_impl_fn(self, method, self_ty, crate_hint, trait_prefix=None, trait_contains=None):
@@ -804,6 +809,7 @@ class Engine:
         fn = frame.fn
         callee = t["call"]
         args = [self.operand(state, frame, a) for a in t["args"]]
+        argv = [deref_value(self, state, a) if a.op in ("ref", "refv", "refo") else a for a in args]
         site = frame.key + "/" + str(b)
         call = {"frame": frame, "block": b, "site": site, "at": t["at"], "x": t["x"], "args": args,
                 "term": t, "state": state}
@@ -815,7 +821,8 @@ class Engine:
             fv = self.operand(state, frame, callee)
             res = self.invoke_value(call, fv, args)
         ev = {"kind": "call", "fn": fn.name, "frame": frame.key, "block": b, "at": t["at"], "x": t["x"],
-              "callee": call.get("callee_name"), "dname": call.get("dname"), "args": args, "result": res,
+              "callee": call.get("callee_name"), "dname": call.get("dname"), "args": args, "argv": argv, "result": res,
+              "pre": call.get("pre"), "alloc_size": call.get("alloc_size"), "strobe_more": call.get("strobe_more"),
               "substs": call.get("substs"), "inlined": call.get("inlined", False), "model": call.get("model"),
               "local": call.get("local", False), "tc": call.get("tc", False), "diverges": t["target"] < 0}
         self.events[(frame.key, b, "t")] = ev
